@@ -46,7 +46,7 @@ def main(tier, replay):
         hyd.selftest(ck, "C06", good, props, mutate)
         c = ck.cov["counters"]
         if not (c.get("tank_traces_reaching_min") and c.get("tank_traces_reaching_max") and c.get("vcurve_tank_traces")):
-            raise common.MachineryError("vacuity: limits / volume curves not exercised: %r" % c)
+            ck.vacuity("vacuity: limits / volume curves not exercised: %r" % c)
     hyd.finish_cov(ck, good, "random networks with 1-2 tanks (cylindrical or volume curve, small capacity so that both limits are "
                    "reached, several links incl. pumps and CV pipes at the tank), 10-20 hydraulic steps, report_timestep='ALL' so "
                    "that every pair of consecutive solved steps is visible; every tank x step is a clause instance")
